@@ -102,9 +102,20 @@ type scSampObs struct {
 type scriptedRT struct {
 	result     string
 	keep, drop int
+	raw        []byte // result "raw": this body, served in reads of at most 16 KiB
 	// gate: when set, the request is parked at the "target" until the channel is closed; reached is signalled first
 	gate    chan struct{}
 	reached chan struct{}
+}
+
+// smallReads hands the body out in pieces, as a network connection does
+type smallReads struct{ r *bytes.Reader }
+
+func (s *smallReads) Read(p []byte) (int, error) {
+	if len(p) > 16<<10 {
+		p = p[:16<<10]
+	}
+	return s.r.Read(p)
 }
 
 type errAfterReader struct {
@@ -140,6 +151,9 @@ func (s *scriptedRT) RoundTrip(req *http.Request) (*http.Response, error) {
 		<-s.gate
 	}
 	switch s.result {
+	case "raw":
+		return &http.Response{StatusCode: 200, Status: "200 OK", Header: http.Header{"Content-Type": {"text/plain; version=0.0.4"}},
+			Body: ioutil.NopCloser(&smallReads{r: bytes.NewReader(s.raw)}), Request: req}, nil
 	case "connfail":
 		return nil, fmt.Errorf("scripted connection failure")
 	case "status500":
